@@ -8,6 +8,7 @@ import json, os, sys
 
 VERIF = os.path.dirname(os.path.dirname(os.path.abspath(__file__)))
 ORIGIN = {
+    "R9": "round 9: as round 7 (prompt selftest/prompts/round7.tmpl plus a 12-minute limit), eight properties (C05, C08, C11, C13, C14, C17, C18, C20)",
     "R2": "round 2: an independent sub-agent that saw only the property text and its own scratch worktree, asked for ONE change that is as hard to detect as possible for a generate-and-compare checker",
     "R3": "round 3: an independent sub-agent that saw only the property text, its own scratch worktree and a list of the kinds of change earlier rounds had already tried, asked for ONE change of a different kind that is as hard to detect as possible",
     "R8": "round 8: an independent sub-agent that saw only the property text and its own scratch worktree, asked for THREE ordinary pull requests (performance, feature/robustness, refactor) with one honest mistake each (prompt selftest/prompts/round8.tmpl)",
